@@ -38,7 +38,14 @@ type Obligation struct {
 	relAlt     func() *Obligation // weaker alternative tried when the obligation is not discharged
 	replayFn func(o *Obligation) *ReplayResult // custom replay (relational obligations)
 	autoVariant string // loop key when the variant of this decreases obligation was inferred
+	prior      *priorNode // obligations asserted (and then assumed) earlier on the same path
 	relAltFull bool
+}
+
+// priorNode: immutable list of the obligations raised so far on a path (shared between forks)
+type priorNode struct {
+	ob   *Obligation
+	prev *priorNode
 }
 
 // EntrySnapshot records how the symbolic entry state of the function under
@@ -73,6 +80,7 @@ type State struct {
 	lits     map[*Region][]int16 // known constant bytes of array/literal regions (-1 unknown)
 	heads    map[int]*State      // state at the head of each open loop (by ordinal), for at(k, e)
 	entries  map[string]*State   // state on first arrival at each loop (before havoc), for inferred invariants
+	priors   *priorNode          // obligations asserted so far on this path
 	depth    int
 	dead     bool
 }
@@ -92,6 +100,7 @@ func (s *State) clone() *State {
 		ghost:    make(map[string]Val, len(s.ghost)),
 		lits:     make(map[*Region][]int16, len(s.lits)),
 		depth:    s.depth,
+		priors:   s.priors,
 	}
 	for k, v := range s.lits {
 		n.lits[k] = v
@@ -204,6 +213,7 @@ type Exec struct {
 	gcells          map[*ssa.Global]*Cell
 	dynHeapSorts    map[string][]string
 	initMode        bool
+	killers         []*Obligation
 	noInits         bool
 	initRefs        int
 	relMode         bool
@@ -497,6 +507,13 @@ func (f *frame) ob(st *State, kind string, pos token.Pos, goal T, desc string) {
 	}
 	if goal == "true" {
 		o.Trivial = true
+	}
+	o.prior = st.priors
+	if goal == "false" {
+		ex.killers = append(ex.killers, o)
+	}
+	if !o.Trivial && !strings.HasPrefix(kind, "decreases.") && !strings.HasPrefix(kind, "post.") {
+		st.priors = &priorNode{o, st.priors}
 	}
 	ex.obs = append(ex.obs, o)
 }
